@@ -9,6 +9,7 @@ CONSTANTS
   FixD10 = TRUE
   FixD15 = TRUE
   FixD18 = TRUE
-INVARIANTS Inv_AnsweredTruthfully Inv_NoBlockingSendUnderLock
+  AtomicCreate = TRUE
+INVARIANTS Inv_AnsweredTruthfully Inv_NoBlockingSendUnderLock Inv_OneRouterPerTopic
 PROPERTIES Live_OtherTopicProgress
 CHECK_DEADLOCK FALSE
